@@ -91,7 +91,8 @@ def sl2_iso_isometry(ctx, sign):
            thorough=[dict(n=3, which='gln', cplx=True)], timeout=120.0,
            functions=["geometry_tools/lie/core.py:gln_adjoint", "geometry_tools/lie/core.py:sln_adjoint", "geometry_tools/lie/core.py:linear_matrix_action",
                       "geometry_tools/lie/core.py:sln_linear_action", "geometry_tools/lie/core.py:basis_matrix", "geometry_tools/lie/core.py:sln_basis_matrix",
-                      "geometry_tools/lie/core.py:gln_lie_algebra_coords", "geometry_tools/lie/core.py:sln_lie_algebra_coords", "geometry_tools/lie/core.py:sln_killing_form"])
+                      "geometry_tools/lie/core.py:gln_lie_algebra_coords", "geometry_tools/lie/core.py:sln_lie_algebra_coords", "geometry_tools/lie/core.py:sln_killing_form",
+                      "geometry_tools/lie/hom.py:_wrap_hom", "geometry_tools/lie/hom.py:gln_adjoint", "geometry_tools/lie/hom.py:sln_adjoint"])
 def adjoint(ctx, n, which, cplx):
     A, B = mats(ctx, 'A', n, cplx), mats(ctx, 'B', n, cplx)
     dA, dB = det(A, ctx), det(B, ctx)
@@ -102,6 +103,13 @@ def adjoint(ctx, n, which, cplx):
     ctx.ensure_eq('multiplicative', fAB, fA @ fB, tol=1e-6)
     ctx.ensure_eq('identity', f(eye(n, ctx)), np.identity(n * n if which == 'gln' else n * n - 1))
     ctx.ensure_eq('passed_inverse_is_used_consistently', f(A, inv=inv(A, ctx)), fA, tol=1e-6)
+    # the homomorphism objects of lie.hom (what Representation.compose is given): the same map, with or without a precomputed
+    # inverse, in any order of calls on one wrapper object
+    from geometry_tools.lie import hom as lhom
+    w = lhom.gln_adjoint() if which == 'gln' else lhom.sln_adjoint()
+    ctx.ensure_eq('hom_wrapper_with_inverse', w(A, inv=inv(A, ctx)), fA, tol=1e-6)
+    ctx.ensure_eq('hom_wrapper_plain_call_after_a_hinted_call', w(B), fB, tol=1e-6)
+    ctx.ensure_eq('hom_wrapper_plain_call', w(A), fA, tol=1e-6)
     if which == 'sln':
         K = lie.sln_killing_form(n)
         ctx.ensure_eq('preserves_killing_form', fA.T @ K @ fA, K, tol=1e-6)
